@@ -49,8 +49,9 @@ def stats_scope(F):
     return seen
 
 
-def cone(F):
-    """bodies reachable from the API entry points of C08 in the local call graph"""
+def cone(F, model_only=False):
+    """bodies reachable from the API entry points of C08 in the local call graph (`model_only`: from the builder-made model's
+    methods and the wrapped user callables only — the part C17 speaks about)"""
     entries = []
     for b in F.bodies.values():
         im = b.j.get("impl", {})
@@ -59,15 +60,18 @@ def cone(F):
         if tr in DERIVED:
             continue
         if sa in (ADT_PROBLEM, ADT_SOLVER, ADT_STATS, ADT_FITRESULT):
-            entries.append(b.key)
+            if not model_only:
+                entries.append(b.key)
         elif sa == ADT_PBUILDER:
-            entries.append(b.key)
+            if not model_only:
+                entries.append(b.key)
         elif tr == TRAIT_MODEL and sa == ADT_SEPMODEL:
             entries.append(b.key)
         elif sa == ADT_SEPMODEL:
             entries.append(b.key)
         elif tr == "statistics::numeric_traits::CastF64":
-            entries.append(b.key)
+            if not model_only:
+                entries.append(b.key)
     # user callables stored in a built model are reached through dyn Fn: the wrapper closures and the arity dispatch
     # = every closure that is boxed as a `dyn Fn` basis function (found by the type it is coerced to, not by the name
     #   of the function that creates it)
@@ -193,6 +197,8 @@ def rule_panic_sites(F, ev, R, config, rule="R-PANIC-SITES", scope=None):
         cn = set(k for k in cn if k in sc)
     elif scope == "model-builder":
         cn = model_builder_scope(F)
+    elif scope == "model":
+        cn, edges = cone(F, model_only=True)
     counts = {}
     dis = None
     inventory = {"explicit": 0, "sub": 0, "bounds": 0, "addmul": 0, "index": 0}
@@ -335,7 +341,7 @@ def rule_panic_sites(F, ev, R, config, rule="R-PANIC-SITES", scope=None):
                       "panic-capable site `%s` on the no-panic cone is neither dominated by a guard establishing its condition nor in the reviewed table%s"
                       % (what[:100], " (more sites of this kind than reviewed)" if hit else ""), t.get("span"))
     R.notes.append(inventory)
-    R.floor(rule, config, 50 if scope is None else (1 if scope == "model-builder" else 8), "pinned tree: 23 explicit + 2 Sub + 56 bounds checks + index calls = 85 (whole cone); the floor is a vacuity guard, not a census")
+    R.floor(rule, config, 50 if scope is None else (1 if scope == "model-builder" else (3 if scope == "model" else 8)), "pinned tree: 23 explicit + 2 Sub + 56 bounds checks + index calls = 85 (whole cone); the floor is a vacuity guard, not a census")
     return inventory
 
 
